@@ -465,6 +465,19 @@ def table(tier="quick"):
     # backend-level generators with a context
     add("backend_randn_gamma", "tensorly.randn",
         lambda d: (lambda: (tl.randn((3, 2), seed=1, **tl.context(np.zeros(1, dtype=d.dt))), tl.gamma(2.0, size=(3, 2), seed=1, **tl.context(np.zeros(1, dtype=d.dt))))), fam="FRandom")
+    # both remaining branches of svd_flip (the sign vector is padded with tl.ones(..., **context(V)))
+    add("svd_full_wide_uflip", "tensorly.tenalg.svd.svd_interface", lambda d: (lambda Mx=d.arr(3, 5): tl.svd_interface(Mx, n_eigenvecs=5)), fam="FSvd", opts=dict(flip=True), dts=ALL3, real={"#1"})
+    add("svd_full_tall_vflip", "tensorly.tenalg.svd.svd_interface", lambda d: (lambda Mx=d.arr(5, 3): tl.svd_interface(Mx, n_eigenvecs=5, u_based_flip_sign=False)), fam="FSvd", opts=dict(flip=True), dts=ALL3, real={"#1"})
+    # backend-level functions implemented in backend/core.py / numpy_backend.py
+    add("backend_functions", "tensorly.norm",
+        lambda d: (lambda X=d.arr(4, 3), A=d.arr(2, 2), Y=d.arr(4, 3): (tl.norm(X, 1), tl.norm(X, 2), tl.norm(X, "inf"), tl.norm(X, 3), tl.norm(X, 2, axis=0), tl.norm(X, 1, axis=1), tl.kron(A, X),
+                                                                     tl.clip(X, 0.1, 0.5), tl.clip(X, a_min=0), tl.eps(X.dtype), tl.digamma(X + 1), tl.logsumexp(X, axis=0), tl.zeros_like(X), tl.ones(3, **tl.context(X)),
+                                                                     tl.zeros((2, 2), **tl.context(X)), tl.eye(2, **tl.context(X)), tl.tensor([1, 2, 3], **tl.context(X)), tl.index_update(tl.copy(X), tl.index[0, :], 0.5),
+                                                                     tl.mean(X, axis=0), tl.sum(X), tl.sqrt(X), tl.abs(X), tl.where(X > 0.5, X, Y), tl.sort(X, axis=0), tl.cumsum(X, axis=0), tl.max(X), tl.exp(X), tl.log(X + 1),
+                                                                     tl.dot(X.T, Y), tl.matmul(X.T, Y), tl.solve(A + 2 * tl.eye(2, **tl.context(A)), A), tl.qr(X), tl.lstsq(X, Y[:, 0])[0], tl.truncated_svd(X, 2), tl.eigh(A + A.T),
+                                                                     tl.moveaxis(X, 0, 1), tl.stack([X, Y]), tl.concatenate([X, Y]), tl.diag(A), tl.trace(A), tl.flip(X, axis=0), tl.sign(X - 0.5), tl.conj(X), tl.tensordot(X, Y, axes=([0], [0])),
+                                                                     tl.einsum("ij,ij->i", X, Y), tl.sin(X), tl.tanh(X), tl.arctan(X) if hasattr(tl, "arctan") else tl.atan(X))),
+        fam="FPure")
     names = [t["name"] for t in T]
     assert len(names) == len(set(names))
     return T
